@@ -34,9 +34,9 @@ theorem tie_omDelete : omDelete =
 theorem tie_chainSaveBlock : chainSaveBlock =
   "func (c *Chain) saveBlock(block *types.Block) error { parent, err := c.store.GetBlockHeader(&block.PreviousBlockHash) if err != nil { return err } checkpoint, err := c.PrevCheckpointByPrevHash(&block.PreviousBlockHash) if err != nil { return err } if err := validation.ValidateBlock(block, parent, checkpoint, c.ProgramConverter); err != nil { return errors.Sub(ErrBadBlock, err) } if _, err := c.casper.ApplyBlock(block); err != nil { return err } if err := c.store.SaveBlock(block); err != nil { return err } blockHash := block.Hash() c.orphanManage.Delete(&blockHash) return nil }" := rfl
 
-/-- `State.saveSubBlock`: `!ok` → return; for every entry: missing → continue, `saveBlock` error → continue (the orphan STAYS in the pool: F29), else recurse -/
+/-- `State.saveSubBlock`: `!ok` → return; for every entry: missing → continue, `saveBlock` error → the orphan is DELETED from the pool (repair of F29) and the loop continues, else recurse -/
 theorem tie_chainSaveSubBlock : chainSaveSubBlock =
-  "func (c *Chain) saveSubBlock(block *types.Block) { blockHash := block.Hash() prevOrphans, ok := c.orphanManage.GetPrevOrphans(&blockHash) if !ok { return } for _, prevOrphan := range prevOrphans { orphanBlock, ok := c.orphanManage.Get(prevOrphan) if !ok { continue } if err := c.saveBlock(orphanBlock); err != nil { continue } c.saveSubBlock(orphanBlock) } }" := rfl
+  "func (c *Chain) saveSubBlock(block *types.Block) { blockHash := block.Hash() prevOrphans, ok := c.orphanManage.GetPrevOrphans(&blockHash) if !ok { return } for _, prevOrphan := range prevOrphans { orphanBlock, ok := c.orphanManage.Get(prevOrphan) if !ok { continue } if err := c.saveBlock(orphanBlock); err != nil { c.orphanManage.Delete(prevOrphan) continue } c.saveSubBlock(orphanBlock) } }" := rfl
 
 /-- `State.processBlock`: known && best height ≥ height → answer whether it is an orphan; parent unknown → `Add`, orphan; `saveBlock` error → error; `saveSubBlock`; `BestChain`; `tryReorganize` -/
 theorem tie_chainProcessBlock : chainProcessBlock =
